@@ -81,3 +81,48 @@ def _(self: Obj(Database.DatabaseData), path: Const("/data"), restricted_data_pa
     modifies(self.path, self.restricted_data_path, self.addons_data_path, self.db_hash, self.cfg_cache, self.defaults)
     sample_with(lambda rnd: {"self": object.__new__(Database.DatabaseData), "path": __import__("spsdk").SPSDK_DATA_FOLDER, "restricted_data_path": None,
                              "addons_data_path": None, "complete_load": rnd.random() < 0.5})
+
+
+# ---- the fingerprint itself: EVERY file the cache answers for is part of it ----------------------------------------------------------------------
+# hash_db_data is assumed above only as "some function of the live data" (ghost constant).  This lemma runs its real body (inline_here) over the ghost
+# file system (A-fs: os.stat reports a fixed but unknown modification time and size per path): the digest is SHA-1 over, for every cached file in
+# order, its name, its modification time and its size, then the data path(s), the defaults path and time and size of the defaults file(s) the cached
+# defaults were read from - so an edit of ANY cached file or of the defaults changes the input
+# of the digest (that the digest then differs is A-crypto-sec, not claimed).  1-3 cached files instantiated; times and sizes are arbitrary in their class.
+from specs.crypto import HASH  # noqa: E402
+
+FILES = OneOf((), ("/data/devices/x/database.yaml",), ("/data/devices/x/database.yaml", "/data/jsonschemas/sch_tz.yaml"),
+              ("/data/devices/x/database.yaml", "/data/jsonschemas/sch_tz.yaml", "/data/common/general.yaml"))
+
+
+def fingerprint_input(files, path, restricted, addons):
+    out = b""
+    for name in files:
+        out = out + name.encode() + ghost_stat(name)[0].to_bytes(8, "big") + ghost_stat(name)[1].to_bytes(2, "big")
+    out = out + path.encode()
+    if restricted:
+        out = out + restricted.encode()
+    if addons:
+        out = out + addons.encode()
+    out = out + (path + "/common/database_defaults.yaml").encode()
+    # the defaults the cache answers with come from these files: their state belongs to the fingerprint as well
+    for folder in (path, restricted):
+        if folder and ghost_exists(folder + "/common/database_defaults.yaml"):
+            out = out + ghost_stat(folder + "/common/database_defaults.yaml")[0].to_bytes(8, "big") + ghost_stat(folder + "/common/database_defaults.yaml")[1].to_bytes(2, "big")
+    return out
+
+
+def fingerprint_or_none(files, restricted, addons):
+    """The real function; None when a cached file cannot be examined (the caller then drops the cache)."""
+    try:
+        return Database.DatabaseData.hash_db_data(list(files), "/data", restricted, addons)
+    except OSError:
+        return None
+
+
+@lemma("config-cache-fingerprint-covers-every-cached-file-its-time-and-size", inline_here=["spsdk.utils.database:Database.DatabaseData.hash_db_data"])
+def _(files: FILES, restricted: OneOf(None, "/restricted"), addons: OneOf(None, "/addons")):
+    let(e1=ghost_exists("/data/common/database_defaults.yaml"), e2=ghost_exists("/restricted/common/database_defaults.yaml"))
+    let(h=fingerprint_or_none(files, restricted, addons))
+    ensures(h is None or h == HASH("sha1", fingerprint_input(files, "/data", restricted, addons)), label="digest-over-name-mtime-size-of-every-file-then-the-paths")
+    cover(h is not None)
